@@ -463,7 +463,7 @@ func VerifH07p() {
 	}
 	exec := func(p []byte) []byte { return vMsgBytes('E', vCat(vCStr(p), vU32(0))) }
 	input := vCat(bind(p1, b1), bind(p2, b2), exec(p3), sync, exec(p4), sync)
-	w := vNewWorld(input, 64)
+	w := vNewWorld(input, 64+4*vParam("LONGNAME", 0))
 	w.execMenu = 1
 	vAssert("set-ok", w.ses.Statements.Set(w.ctx, "a", w.mkStmt(1, 0)) == nil)
 	expect := func(p []byte) (vParamSet, bool) {
